@@ -1,9 +1,9 @@
 package engine
 
 import (
-	"reflect"
 	"fmt"
 	"go/types"
+	"reflect"
 	"sort"
 	"strings"
 	"sync"
@@ -307,7 +307,6 @@ func DebugWalk(repo, name string) {
 		}
 	}
 }
-
 
 // walkerStrictFor: does the struct walker, handed a value that is not a struct (and not a pointer),
 // write a clause ("is not struct") when its mode parameter has the given value? Decided by
